@@ -80,8 +80,10 @@ def effPart : Verb → Rq → Option Name
       (b) an id without `/` (ValueError from the tuple unpacking — `.badId`);
       (c) quantity strings longer than the interpreter's int-conversion limit
           (`Rq.WithinLimits`; ValueError — `C19_error_kind_digit_limit_witness`, known finding);
-      (d) stored data that does not parse or has duplicate limit traits / duplicate stored traits
-          (`WFCheck`; cannot be produced through this API). -/
+      (d) stored data that does not parse, two limits for one trait, or a stored trait list with
+          a duplicate (`WFCheck`; requests write schema-valid strings, the admin CLI keeps one
+          limit per trait, LDAP attribute values are sets — the model follows the code on such
+          data too: last limit wins, a duplicated trait is subtracted twice; correspondence only). -/
 theorem C19_error_kind (parts : List Part) (s : List Resv) (verb : Verb) (rid : List Char) (rq : Rq)
     (alloc cell p : Name) (hs : schemaOK (required verb) rq = true)
     (hid : splitId rid = some (alloc, cell)) (hp : effPart verb rq = some p)
